@@ -129,6 +129,11 @@ def checks(I, rep, U, batch, E):
      D + '.NormalDistribution.entropy')
   lp_ref = (ref_logn(a, mu, sg) - ref_fldj(a)).sum(axis=-1)
   ob('R20.4', 'log_prob', call('log_prob', params, a), lp_ref, D + '.ParametricDistribution.log_prob')
+  # MORE actions than parameter sets (a grid of actions under one parameter vector -- what integrating the density does --
+  # or K candidate actions per state): the terms broadcast, and only the EVENT axis is summed
+  ab = symarr('ab', (2,) + batch + (E,))
+  lpb = (ref_logn(ab, mu, sg) - ref_fldj(ab)).sum(axis=-1)
+  ob('R20.4', 'log_prob of a stack of actions under one parameter set', call('log_prob', params, ab), lpb, D + '.ParametricDistribution.log_prob')
   ob('R20.4', 'entropy', call('entropy', params, key), (ref_entropy_n(sg) + ref_fldj(raw)).sum(axis=-1),
      D + '.ParametricDistribution.entropy')
   ob('R20.4', 'sample_no_postprocessing', call('sample_no_postprocessing', params, key), raw,
